@@ -51,7 +51,7 @@ def run(res):
     rng = random.Random(res.seed)
     texts = []
     # programs that share names across builds: same labels/equ/macro names with different meanings, with/without devices
-    for i in range(120 if res.tier == "quick" else 6000):
+    for i in range(120 if res.tier == "quick" else 20000):
         ls = proggen.program(rng, size=rng.choice([4, 8, 14]), device=rng.choice([None, None, "ATmega8", "ATtiny13", "ATtiny20"]))
         if rng.random() < 0.4:
             ls = proggen.mutate(rng, ls)
